@@ -73,6 +73,58 @@ def alignment(mt, res, unique, n_obs):
 
 
 # ------------------------------------------------------------------------------------------- C04
+def move_checker(model):
+    """-> (state_ok(k), move_ok(a, b)) with adjacency taken from the raw graph of the case."""
+    coords, adj = model.coords, model.adj
+    linked = {}
+    for pair in model.spec.get("linked") or []:
+        (a, b), (c, d) = pair
+        linked.setdefault((tuple(a), tuple(b)) if False else (a, b), set()).add((c, d))
+
+    def nb(n):
+        return [c for c in adj.get(n, []) if c in coords]
+
+    def state_ok(k):
+        if isinstance(k, tuple):
+            return k[0] in coords and k[1] in nb(k[0]) and k[0] != k[1]
+        return k in coords
+
+    def move_ok(a, b):
+        if a == b:
+            return True
+        if isinstance(a, tuple) and isinstance(b, tuple):
+            return (a[1] == b[0] and b[1] in nb(b[0]) and b[0] != b[1]) or (b in linked.get(a, ()))
+        if isinstance(a, tuple):
+            return b == a[1]
+        if isinstance(b, tuple):
+            return b[0] == a and b[1] in nb(a)
+        return b in nb(a)
+    return state_ok, move_ok
+
+
+def lattice_bad_links(mt, model):
+    """hints for directed amplification (C04): live lattice entries, anywhere in the lattice, whose state is not in the map or
+    whose best-predecessor link is a move the map does not offer.  -> list of (entry, predecessor or None, kind), links scanned"""
+    state_ok, move_ok = move_checker(model)
+    out = []
+    n = 0
+    if not mt.lattice:
+        return out, n
+    for col in mt.lattice.values():
+        for layer in col.o:
+            for x in layer.values():
+                if x.stop:
+                    continue
+                if not state_ok(x.shortkey):
+                    out.append((x, None, "state"))
+                    continue
+                for p in x.prev:
+                    n += 1
+                    if state_ok(p.shortkey) and not move_ok(p.shortkey, x.shortkey):
+                        out.append((x, p, "move"))
+    return out, n
+
+
 def walk(mt, model, jumps_used=False):
     """C04: the matched sequence is a walk in the road graph (adjacency from the raw graph)."""
     out = []
